@@ -280,6 +280,7 @@ pub(crate) fn skip_comments_and_whitespace(input: &mut &BStr) -> winnow::Result<
 }
 
 fn parse_paren_group<'input>(input: &mut &'input BStr) -> winnow::Result<Vec<Command<'input>>> {
+    let _guard = NestingGuard::enter(input)?;
     '('.parse_next(input)?;
     skip_comments_and_whitespace(input)?;
     let (group_contents, _) = repeat_till(0.., parse_command, ')').parse_next(input)?;
@@ -422,7 +423,61 @@ fn parse_memory<'input>(input: &mut &'input BStr) -> winnow::Result<Vec<MemoryRe
 }
 
 /// Parse an expression - entry point for expression parsing
+/// How deeply parenthesised expressions, function arguments, operands of unary operators and groups
+/// of commands may nest. We parse them by recursive descent, so without a limit the input decides
+/// how much stack we use.
+const MAX_NESTING: u32 = 32;
+
+/// How many operators a single expression may contain. The parsed expression is a tree that gets
+/// evaluated and dropped recursively and a chain of operators is as deep as it is long.
+const MAX_OPERATORS: u32 = 1000;
+
+thread_local! {
+    static NESTING: std::cell::Cell<u32> = const { std::cell::Cell::new(0) };
+    static OPERATORS: std::cell::Cell<u32> = const { std::cell::Cell::new(0) };
+}
+
+/// Counts one more level of nesting for as long as it's alive.
+struct NestingGuard;
+
+impl NestingGuard {
+    fn enter(input: &&BStr) -> winnow::Result<NestingGuard> {
+        let depth = NESTING.get();
+        if depth >= MAX_NESTING {
+            return Err(ContextError::from_external_error(
+                input,
+                LinkerScriptError::TooDeeplyNested,
+            ));
+        }
+        if depth == 0 {
+            OPERATORS.set(0);
+        }
+        NESTING.set(depth + 1);
+        Ok(NestingGuard)
+    }
+}
+
+impl Drop for NestingGuard {
+    fn drop(&mut self) {
+        NESTING.set(NESTING.get() - 1);
+    }
+}
+
+/// Counts an operator of the expression that's being parsed.
+fn count_operator(input: &&BStr) -> winnow::Result<()> {
+    let count = OPERATORS.get() + 1;
+    if count > MAX_OPERATORS {
+        return Err(ContextError::from_external_error(
+            input,
+            LinkerScriptError::ExpressionTooLong,
+        ));
+    }
+    OPERATORS.set(count);
+    Ok(())
+}
+
 fn parse_expression<'a>(input: &mut &'a BStr) -> winnow::Result<Expression<'a>> {
+    let _guard = NestingGuard::enter(input)?;
     parse_logical_or.parse_next(input)
 }
 
@@ -442,6 +497,7 @@ fn parse_logical_or<'a>(input: &mut &'a BStr) -> winnow::Result<Expression<'a>> 
     multispace0.parse_next(input)?;
 
     while opt("||").parse_next(input)?.is_some() {
+        count_operator(input)?;
         multispace0.parse_next(input)?;
         let right = parse_logical_and.parse_next(input)?;
         left = Expression::LogicalOr(Box::new(left), Box::new(right));
@@ -458,6 +514,7 @@ fn parse_logical_and<'a>(input: &mut &'a BStr) -> winnow::Result<Expression<'a>>
     multispace0.parse_next(input)?;
 
     while opt("&&").parse_next(input)?.is_some() {
+        count_operator(input)?;
         multispace0.parse_next(input)?;
         let right = parse_comparison.parse_next(input)?;
         left = Expression::LogicalAnd(Box::new(left), Box::new(right));
@@ -483,6 +540,7 @@ fn parse_comparison<'a>(input: &mut &'a BStr) -> winnow::Result<Expression<'a>> 
     )))
     .parse_next(input)?
     {
+        count_operator(input)?;
         multispace0.parse_next(input)?;
         let right = parse_bitwise_or.parse_next(input)?;
         left = match op {
@@ -511,6 +569,7 @@ fn parse_shift<'a>(input: &mut &'a BStr) -> winnow::Result<Expression<'a>> {
     )))
     .parse_next(input)?
     {
+        count_operator(input)?;
         multispace0.parse_next(input)?;
         let right = parse_additive.parse_next(input)?;
         left = match op {
@@ -533,6 +592,7 @@ fn parse_bitwise_or<'a>(input: &mut &'a BStr) -> winnow::Result<Expression<'a>> 
         .parse_next(input)?
         .is_some()
     {
+        count_operator(input)?;
         multispace0.parse_next(input)?;
         let right = parse_bitwise_xor.parse_next(input)?;
         left = Expression::BitwiseOr(Box::new(left), Box::new(right));
@@ -549,6 +609,7 @@ fn parse_bitwise_xor<'a>(input: &mut &'a BStr) -> winnow::Result<Expression<'a>>
     multispace0.parse_next(input)?;
 
     while opt('^').parse_next(input)?.is_some() {
+        count_operator(input)?;
         multispace0.parse_next(input)?;
         let right = parse_bitwise_and.parse_next(input)?;
         left = Expression::BitwiseXor(Box::new(left), Box::new(right));
@@ -568,6 +629,7 @@ fn parse_bitwise_and<'a>(input: &mut &'a BStr) -> winnow::Result<Expression<'a>>
         .parse_next(input)?
         .is_some()
     {
+        count_operator(input)?;
         multispace0.parse_next(input)?;
         let right = parse_shift.parse_next(input)?;
         left = Expression::BitwiseAnd(Box::new(left), Box::new(right));
@@ -586,6 +648,7 @@ fn parse_additive<'a>(input: &mut &'a BStr) -> winnow::Result<Expression<'a>> {
     while let Some(op) =
         opt(alt(('+'.map(|_| AddOp::Add), '-'.map(|_| AddOp::Subtract)))).parse_next(input)?
     {
+        count_operator(input)?;
         multispace0.parse_next(input)?;
         let right = parse_multiplicative.parse_next(input)?;
         left = match op {
@@ -610,6 +673,7 @@ fn parse_multiplicative<'a>(input: &mut &'a BStr) -> winnow::Result<Expression<'
     )))
     .parse_next(input)?
     {
+        count_operator(input)?;
         multispace0.parse_next(input)?;
         let right = parse_unary.parse_next(input)?;
         left = match op {
@@ -630,16 +694,19 @@ fn parse_unary<'a>(input: &mut &'a BStr) -> winnow::Result<Expression<'a>> {
         .parse_next(input)?
         .is_some()
     {
+        let _guard = NestingGuard::enter(input)?;
         let operand = parse_unary.parse_next(input)?;
         return Ok(Expression::LogicalNot(Box::new(operand)));
     }
 
     if opt('~').parse_next(input)?.is_some() {
+        let _guard = NestingGuard::enter(input)?;
         let operand = parse_unary.parse_next(input)?;
         return Ok(Expression::BitwiseNot(Box::new(operand)));
     }
 
     if opt('-').parse_next(input)?.is_some() {
+        let _guard = NestingGuard::enter(input)?;
         let operand = parse_unary.parse_next(input)?;
         return Ok(Expression::Negate(Box::new(operand)));
     }
@@ -1078,6 +1145,8 @@ fn to_str(bytes: &[u8]) -> Result<&str> {
 enum LinkerScriptError {
     InvalidAlignment,
     UnclosedComment,
+    TooDeeplyNested,
+    ExpressionTooLong,
 }
 
 impl std::error::Error for LinkerScriptError {}
@@ -1087,6 +1156,12 @@ impl std::fmt::Display for LinkerScriptError {
         match self {
             LinkerScriptError::InvalidAlignment => write!(f, "Invalid alignment"),
             LinkerScriptError::UnclosedComment => write!(f, "Unclosed comment"),
+            LinkerScriptError::TooDeeplyNested => {
+                write!(f, "Nested more than {MAX_NESTING} levels deep")
+            }
+            LinkerScriptError::ExpressionTooLong => {
+                write!(f, "Expression has more than {MAX_OPERATORS} operators")
+            }
         }
     }
 }
